@@ -18,7 +18,7 @@ func init() {
 	register("C08",
 		"Structural necessary conditions of C08 decided from /repo's SSA: (pairing) every witness-path update is control-dependent on the `true` result of the AdjustMax* call on the paired value field (pairing table = the documented JSON v1 keys), passes the function's own object id and the object kind of the metric, and forgets the previous path before requesting the new one; (siblings) in the report's item list every item cites the path field paired with its value field; (none) with NameStyleNone the resolver hands out no path, Footnote is always empty, hash style cites the object id and full style the path description. Not decided: that a printed description resolves with git rev-parse (depends on git's revision grammar and run-time strings).",
 		[]string{"the enumeration delivers each object's id together with its size (C01.effects provenance)"},
-		ruleC08Pairing, ruleC08Siblings, ruleC08None)
+		ruleC08Pairing, ruleC08Siblings, ruleC08None, ruleC08ParentKind)
 }
 
 // ---------------- C07 ----------------
@@ -465,6 +465,35 @@ func ruleC08Pairing(c *Ctx) {
 		}
 	}
 	// also direct stores of RequestPath results into HistorySize path fields (inlined setter)
+	for _, f := range c.ModFns {
+		allInstrs(f, func(in ssa.Instruction) {
+			st, ok := in.(*ssa.Store)
+			if !ok {
+				return
+			}
+			fa, ok := st.Addr.(*ssa.FieldAddr)
+			if !ok || historyFieldTag(c, fa) == "" {
+				return
+			}
+			call, ok := st.Val.(*ssa.Call)
+			if !ok || !call.Call.IsInvoke() || call.Call.Method.Name() != "RequestPath" {
+				return
+			}
+			// the previous path must be forgotten first (if non-nil), as in the setter
+			forgot := false
+			allInstrs(f, func(in2 ssa.Instruction) {
+				if fc, ok := in2.(*ssa.Call); ok && fc.Call.IsInvoke() && fc.Call.Method.Name() == "ForgetPath" && instrDominatesOrGuards(fc, call) {
+					if historyFieldTag(c, fc.Call.Args[0]) == historyFieldTag(c, fa) {
+						forgot = true
+					}
+				}
+			})
+			if !forgot {
+				c.violate("C08.pairing", "inline-forget:"+historyFieldTag(c, fa), st.Pos(), fnName(f), "a new witness is requested without the previous one being forgotten first")
+			}
+			sites = append(sites, site{call: call, pathArg: fa, oidArg: call.Call.Args[0], typeArg: call.Call.Args[1]})
+		})
+	}
 	seenPaths := map[string]bool{}
 	for _, s := range sites {
 		f := s.call.Parent()
@@ -711,5 +740,64 @@ func ruleC07Subgroups(c *Ctx) {
 	}
 	if n < 2 {
 		c.violate("C07.subgroups", "loops", collector.Pos(), name, fmt.Sprintf("expected the two loops over a group's subgroups (with and without a filter of its own), found %d", n))
+	}
+}
+
+// instrDominatesOrGuards: a is executed before b on the paths where a's
+// guard holds (a sits in a conditional block whose If dominates b).
+func instrDominatesOrGuards(a, b ssa.Instruction) bool {
+	if instrDominates(a, b) {
+		return true
+	}
+	if idom := a.Block().Idom(); idom != nil {
+		return idom.Dominates(b.Block()) && a.Block().Index < b.Block().Index
+	}
+	return false
+}
+
+// ruleC08ParentKind: the resolver records the referrer of a sought object
+// with the referrer's own kind (a commit for RecordCommit, a tree for
+// RecordTreeEntry): the kind selects how the description is rendered.
+func ruleC08ParentKind(c *Ctx) {
+	want := map[string]string{"RecordCommit": "commit", "RecordTreeEntry": "tree"}
+	n := 0
+	for _, f := range c.ModFns {
+		kind, ok := want[f.Name()]
+		if !ok || pkgOf(f) != modPath+"/sizes" || f.Signature.Recv() == nil {
+			continue
+		}
+		allInstrs(f, func(in ssa.Instruction) {
+			call, ok := in.(*ssa.Call)
+			if !ok {
+				return
+			}
+			cal := call.Call.StaticCallee()
+			if cal == nil || !c.inRuleScope(cal) || cal.Signature.Results().Len() != 1 || !isPtrToNamed(cal.Signature.Results().At(0).Type(), modPath+"/sizes", "Path") {
+				return
+			}
+			n++
+			var lit string
+			var oidOK bool
+			for _, a := range call.Call.Args {
+				if s, ok := constStr(a); ok {
+					lit = s
+				}
+				if p, ok := c.resolve(a).(*ssa.Parameter); ok && p.Parent() == f && isNamed(p.Type(), modPath+"/git", "OID") && p == f.Params[1] {
+					oidOK = true
+				}
+			}
+			key := fnName(f)
+			switch {
+			case lit != kind:
+				c.violate("C08.parent-kind", key, call.Pos(), key, fmt.Sprintf("%s records the referring object as a %q (it is a %s): descriptions through it are rendered with the wrong separator and do not resolve", f.Name(), lit, kind))
+			case !oidOK:
+				c.violate("C08.parent-kind", key+":oid", call.Pos(), key, f.Name()+" does not record the referring object's own id")
+			default:
+				c.hold("C08.parent-kind", key, call.Pos(), "the referrer is recorded as a "+kind+" with its own id")
+			}
+		})
+	}
+	if n < 2 {
+		c.violate("C08.parent-kind", "floor", token.NoPos, "", fmt.Sprintf("only %d referrer-recording sites found in the path resolver (commit→tree and tree→entry expected)", n))
 	}
 }
